@@ -95,6 +95,12 @@ CLAIMED = {
     note="Assumed: _ConstantFindingMapper marks only variable-free subexpressions constant (bounded monitor); inherited IdentityMapper methods preserve value. collapse_constants' three-line driver is in the bounded stand-in (6k expressions x free-variable subsets).",
     technique="contract-based deductive verification with an abstract AC value semantics and ghost accumulators",
     ref="6/C18"),
+
+ "C15": dict(cat="other",
+    text="PARTIAL. Decided from the real source of the six anchored files on every run: all iteration sites are enumerated (175), iterables classified by a conservative taint analysis, and for every site iterating an unordered collection one obligation - its effect is order-insensitive (set/dict comprehension, order-free consumer, a loop body that only grows sets / stores under the element, or a function whose pyvc contract was proved with set iteration in arbitrary order); plus a scan that the generators write no module-level state other than ArrayType.INDEX_VAR_COUNTER; L-PERM (Lean) turns pairwise commutation into order independence. NOT decided: byte identity of the emitted text across processes, hash seeds and generator histories (bounded stand-in with subprocesses under different PYTHONHASHSEED).",
+    note="Category other: cross-process byte identity is an observation about whole runs, not a function contract. The site classifier is a mechanical effect analysis, not an SMT proof; its source list and commuting patterns are trusted and stated.",
+    technique="site-classification completeness + commutation obligations per unordered iteration site (ast effect patterns, contracts proved under arbitrary set order, L-PERM) + bounded cross-process stand-in",
+    ref="6/C15"),
 }
 
 NOT_APPLICABLE = {
